@@ -38,8 +38,10 @@ PROOF_MODULES = ["PyribsProofs.C12"]
 _ENTRY_DEFS = ("StoreAdd StoreRetrieve StoreData StoreIter StoreRaw XfBatch XfSingle XfObjSum XfBestIdx "
                "ValidateBatch ValidateSingle Add AddSingle Retrieve RetrieveSingle SampleElites BestElite "
                "Data Iter Cqd BufferAdd SbaAddSingle SbaAdd ProxAdd SchedTell SchedTellDqd BanditTell "
-               "EsTell GaTell GaTellDqd GoTellDqd AdamStep AscentStep ParallelAxes HeatmapDf").split()
-_NEG_DEFS = "D7 D10 D10b D15 D19 D20 RetrieveSlice DataField AdamInplace AddKeeps XfWritesNew RawWrite".split()
+               "EsTell GaTell GaTellDqd GoTellDqd AdamStep AscentStep ParallelAxes HeatmapDf "
+               "FromRaw CvtInit GridInit EmitterInit OptInit").split()
+_NEG_DEFS = ("D7 D10 D10b D15 D19 D20 RetrieveSlice DataField AdamInplace AddKeeps XfWritesNew RawWrite "
+             "D38cvt D38init D41 D36 ObjAsStored").split()
 
 THEOREMS = ([
     "Pyribs.C12.soundness",
@@ -49,6 +51,7 @@ THEOREMS = ([
     "Pyribs.C12.entry_safe",
     "Pyribs.C12.negatives_rejected",
     "Pyribs.C12.D10_only_without_conversion",
+    "Pyribs.C12.object_entries_only_object_branch",
     "Pyribs.C12.read_paths_agree",
     "Pyribs.C12.nonvacuous",
     "Pyribs.C12.read_paths_nonvacuous",
@@ -78,6 +81,13 @@ ASSUMPTIONS = [
     "the property's list of outputs (DESIGN section 3) and are not flagged",
     "validate_batch rebinding add_info[name] = np.asarray(add_info[name]) in the caller's add_info dict keeps the "
     "values (a list entry becomes an equal ndarray) and is not counted as a mutation of a caller array",
+    "Scheduler.ask() / emitter.ask() / ask_dqd() return arrays the object also keeps, and the rankers' "
+    "target_measure_dir setter keeps what it is given: not in the property's list, not flagged (ask results are "
+    "only used as probes of what a constructor kept)",
+    "payload objects of object fields are stored and handed out by reference (the arrays holding them are "
+    "copies); the monitor treats payloads as opaque values and checks their Python type and value on every read "
+    "path against what was submitted",
+    "IsoLineOperator's iso_sigma / line_sigma are documented as floats and are not given as arrays",
 ]
 TRUSTED_EXTRA = [
     "hand-transcribed IR of each entry point (PyribsModel/Alias.lean), validated against the code by the runtime "
@@ -751,7 +761,11 @@ def diff_keys(a, b, pre=""):
 class Call:
     """One monitored public call."""
 
-    def __init__(self, name, lean, bits, args, invoke, is_iter=False, out_alias_ok=False):
+    def __init__(self, name, lean, bits, args, invoke, is_iter=False, out_alias_ok=False, must_succeed=False,
+                 frozen=(), graph_roots=None):
+        self.must_succeed = must_succeed  # an exception raised by this call is itself a failure
+        self.frozen = frozen  # keys of World.observe() this call must leave unchanged
+        self.graph_roots = graph_roots  # roots of the callee for this call (default: the whole world)
         self.name = name  # e.g. GridArchive.add
         self.lean = lean  # name of the IR transcription (None: nothing to tie, e.g. EmitterBase.tell)
         self.bits = bits  # list of ("a", argname, conv) | ("b",) | ("f", bool)
@@ -949,7 +963,9 @@ def calls_store_add(w, op):
                   mk(w, op, "meta", meta, 10, exact=object, other=object)]
             data.update({"tags": a[4].obj, "meta": a[5].obj})
     target = w.store2 if op.get("target") == "store2" else w.store
-    yield Call("ArrayStore.add", "ArrayStore.add", bits, a, lambda: target.add(a[0].obj, data, {}, []))
+    yield Call("ArrayStore.add" + ("(loaded store)" if op.get("target") == "store2" else ""), "ArrayStore.add", bits, a,
+               lambda: target.add(a[0].obj, data, {}, []), must_succeed=bool(op.get("must")),
+               frozen=tuple(op.get("frozen", ())))
 
 
 def calls_store_retrieve(w, op):
@@ -971,6 +987,185 @@ def calls_store_data(w, op):
 
 def calls_store_raw(w, op):
     yield Call("ArrayStore.as_raw_dict", "ArrayStore.as_raw_dict", [], [], lambda: w.store.as_raw_dict())
+
+
+# ---- ArrayStore.from_raw_dict
+
+
+def calls_from_raw(w, op):
+    """`ArrayStore.from_raw_dict(d)`: d built from writable arrays of the caller (layouts exact / view /
+    strided), or d = as_raw_dict() of a live store (read-only views of that store). Afterwards the loaded
+    store and the exporting store must be two working stores that share nothing."""
+    import random as _random
+    from ribs.archives import ArrayStore
+    raw = w.store.as_raw_dict()
+    readonly = op.get("src") == "readonly"
+    r = _random.Random(op["seed"])
+    args, d = [], {}
+    for k, v in raw.items():
+        if isinstance(v, np.ndarray):
+            if readonly:
+                arg = CallerArg(f"d[{k!r}]", v, [], "view")
+            else:
+                lay = op.get("layout", "exact")
+                arg = make_array_arg(f"d[{k!r}]", np.array(v), lay if lay in NOCOPY_LAYOUTS else "exact", v.dtype,
+                                     v.dtype, r)
+            args.append(arg)
+            d[k] = arg.obj
+        else:
+            d[k] = v
+
+    def invoke():
+        w.store2 = ArrayStore.from_raw_dict(d)
+
+    yield Call("ArrayStore.from_raw_dict" + ("(as_raw_dict())" if readonly else ""), "ArrayStore.from_raw_dict", [],
+               args, invoke, must_succeed=True, graph_roots=lambda: [("store2", w.store2)])
+    yield from calls_store_add(w, {"op": "store_add", "n": 2, "seed": op["seed"] + 1, "layout": "exact",
+                                   "target": "store2", "must": True, "frozen": ["store"]})
+    yield from calls_store_add(w, {"op": "store_add", "n": 2, "seed": op["seed"] + 2, "layout": "exact",
+                                   "must": True, "frozen": ["store2"]})
+
+
+# ---- constructors
+
+CTOR_ARGS = {
+    "cvt": ["custom_centroids", "samples", "ranges"],
+    "grid": ["ranges", "dims"],
+    "sba": ["ranges", "dims"],
+    "gauss": ["sigma", "x0", "initial_solutions", "bounds"],
+    "iso": ["x0", "initial_solutions", "bounds"],
+    "genetic": ["x0", "initial_solutions", "bounds", "operator_kwargs.sigma"],
+    "go": ["sigma", "x0", "initial_solutions", "bounds"],
+    "es": ["x0", "bounds"],
+    "ga": ["x0", "bounds"],
+    "adam": ["theta0"],
+    "ascent": ["theta0"],
+}
+CTOR_LEAN = {"cvt": "CVTArchive.__init__", "grid": "GridArchive.__init__", "sba": "GridArchive.__init__",
+             "adam": "GradientOpt.__init__", "ascent": "GradientOpt.__init__"}
+
+
+def calls_construct(w, op):
+    """A constructor with ONE array-valued argument in the case's layout (every other argument is a python
+    value). The constructed object joins the world, so the later ops of the case run against it."""
+    from ribs.archives import CVTArchive, GridArchive, SlidingBoundariesArchive
+    from ribs.emitters import (EvolutionStrategyEmitter, GaussianEmitter, GeneticAlgorithmEmitter,
+                               GradientArborescenceEmitter, GradientOperatorEmitter, IsoLineEmitter)
+    from ribs.emitters.opt import AdamOpt, GradientAscentOpt
+    target, argname = op["target"], op["arg"]
+    sd, md, xd = w.dims
+    r = np.random.default_rng(op["seed"])
+    ints = (np.int32, np.int64)
+    values = {
+        "custom_centroids": lambda: np.stack([r.permutation(np.arange(-7, 8))[:md] for _ in range(6)]) / 8.0,
+        "samples": lambda: r.integers(-32, 33, (40, md)) / 32.0,
+        "ranges": lambda: np.array([(-1.0, 1.0)] * md),
+        "dims": lambda: np.array([4 if md <= 4 else 2] * md),
+        "sigma": lambda: r.integers(1, 9, sd) / 16.0,
+        "operator_kwargs.sigma": lambda: r.integers(1, 9, sd) / 16.0,
+        "x0": lambda: r.integers(-8, 9, sd) / 16.0,
+        "theta0": lambda: r.integers(-8, 9, sd) / 16.0,
+        "initial_solutions": lambda: r.integers(-16, 17, (3, sd)) / 16.0,
+        "bounds": lambda: np.array([(-2.0, 2.0)] * sd),
+    }
+    vals = values[argname]()
+    exact, other = (ints if argname == "dims" else (w.dt, w.other))
+    arg = mk(w, op, argname, vals, 11, exact=exact, other=other)
+    a = [arg]
+    x0 = (np.arange(sd) % 5 - 2) / 8.0
+    extra = {"ex": ((xd,), w.dt)}
+    seed = 40 + len(w.emitters)
+
+    def pick(name, default):
+        return arg.obj if argname == name else default
+
+    def start():
+        """x0 / initial_solutions: exactly one of them is given."""
+        if argname == "initial_solutions":
+            return {"initial_solutions": arg.obj}
+        return {"x0": pick("x0", x0.tolist())}
+
+    def invoke():
+        if target in ("cvt", "grid", "sba"):
+            kw = {"solution_dim": sd, "dtype": w.dt, "extra_fields": extra, "seed": 11,
+                  "ranges": pick("ranges", [(-1.0, 1.0)] * md)}
+            if target == "cvt":
+                if argname == "samples":
+                    kw["samples"] = arg.obj
+                else:
+                    kw["custom_centroids"] = pick("custom_centroids", centroids(md).tolist())
+                w.archive = CVTArchive(cells=6, **kw)
+            elif target == "grid":
+                w.archive = GridArchive(dims=pick("dims", [4 if md <= 4 else 2] * md), **kw)
+            else:
+                w.archive = SlidingBoundariesArchive(dims=pick("dims", [3 if md <= 4 else 2] * md),
+                                                     remap_frequency=3, buffer_capacity=4, **kw)
+            w.kind = target
+            return
+        if target in ("adam", "ascent"):
+            w.opt = AdamOpt(arg.obj, lr=0.125, l2_coeff=0.5) if target == "adam" else GradientAscentOpt(arg.obj, 0.125)
+            return
+        ar, bounds = w.archive, pick("bounds", None)
+        if target == "gauss":
+            e = GaussianEmitter(ar, sigma=pick("sigma", 0.25), bounds=bounds, batch_size=3, seed=seed, **start())
+        elif target == "iso":
+            e = IsoLineEmitter(ar, bounds=bounds, batch_size=3, seed=seed, **start())
+        elif target == "genetic":
+            e = GeneticAlgorithmEmitter(ar, operator="gaussian", bounds=bounds, batch_size=3,
+                                        operator_kwargs={"sigma": pick("operator_kwargs.sigma", 0.25), "seed": seed},
+                                        **start())
+        elif target == "go":
+            e = GradientOperatorEmitter(ar, sigma=pick("sigma", 0.125), sigma_g=0.25, bounds=bounds, batch_size=3,
+                                        seed=seed, **start())
+        elif target == "es":
+            e = EvolutionStrategyEmitter(ar, x0=pick("x0", x0.tolist()), sigma0=0.5, bounds=bounds, batch_size=4,
+                                         seed=seed)
+        else:
+            e = GradientArborescenceEmitter(ar, x0=pick("x0", x0.tolist()), sigma0=0.5, lr=0.25, bounds=bounds,
+                                            batch_size=4, seed=seed)
+        w.emitters.append(e)
+
+    cls = {"cvt": "CVTArchive", "grid": "GridArchive", "sba": "SlidingBoundariesArchive", "gauss": "GaussianEmitter",
+           "iso": "IsoLineEmitter", "genetic": "GeneticAlgorithmEmitter", "go": "GradientOperatorEmitter",
+           "es": "EvolutionStrategyEmitter", "ga": "GradientArborescenceEmitter", "adam": "AdamOpt",
+           "ascent": "GradientAscentOpt"}[target]
+    yield Call(f"{cls}({argname}=...)", CTOR_LEAN.get(target, "Emitter.__init__"), [], a, invoke, must_succeed=True)
+
+
+def calls_ask_probe(w, op):
+    """Unmonitored: what the emitters emit now (ask / ask_dqd are not in the property's list of outputs, but
+    what they return must not depend on arrays the caller changed after handing them to a constructor)."""
+    for e in w.emitters:
+        for meth in ("ask_dqd", "ask"):
+            try:
+                w.probe.append((type(e).__name__, meth, fp_value(np.array(getattr(e, meth)()))))
+            except Exception as ex:  # pylint: disable=broad-except   (e.g. ask() before tell_dqd())
+                w.probe.append((type(e).__name__, meth, type(ex).__name__))
+    return
+    yield  # pylint: disable=unreachable   (a generator with no monitored call)
+
+
+# ---- known finding D40 (one deterministic case)
+
+
+def check_d40():
+    from ribs.archives import GridArchive
+    a = GridArchive(solution_dim=2, dims=[4], ranges=[(0, 1)], extra_fields={"stage_2": ((), np.float64)})
+    a.add_single([1.0, 2.0], 1.0, [0.3], stage_2=7.5)
+    df = a.data(return_type="pandas")
+    rows = list(df.iterelites())
+    ghost = df.get_field("stage")
+    ok = len(rows) == 1 and "stage_2" in rows[0] and "stage" not in rows[0] and \
+        not isinstance(rows[0]["stage_2"], np.ndarray) and float(rows[0]["stage_2"]) == 7.5 and ghost is None
+    if ok:
+        return None
+    return Failure("oracle", "GridArchive(solution_dim=2, dims=[4], ranges=[(0,1)], extra_fields={'stage_2': ((), "
+                   "np.float64)}) after add_single([1.,2.], 1.0, [0.3], stage_2=7.5): "
+                   f"data(return_type='pandas').iterelites() yields keys {sorted(rows[0].keys()) if rows else None} "
+                   f"(scalar field 'stage_2' presented as {rows[0].get('stage', rows[0].get('stage_2'))!r}) and "
+                   f"get_field('stage') returns {None if ghost is None else ghost.tolist()} for a field that does not "
+                   "exist; dict / tuple / single-field / iteration present 'stage_2' = 7.5",
+                   key="D40-field-name-digit-suffix")
 
 
 # ---- schedulers and emitters
@@ -1172,7 +1367,8 @@ PREP = {
     "store_add": calls_store_add, "store_retrieve": calls_store_retrieve, "store_data": calls_store_data,
     "store_raw": calls_store_raw, "tell": calls_tell, "dqd_round": calls_dqd_round,
     "emitter_tell": calls_emitter_tell, "emitter_dqd": calls_emitter_dqd, "step": calls_step, "plot": calls_plot,
-    "helper": calls_helper,
+    "helper": calls_helper, "store_from_raw": calls_from_raw, "construct": calls_construct,
+    "ask_probe": calls_ask_probe,
 }
 OUTPUT_OPS = {"retrieve", "retrieve_single", "sample", "best", "data", "iter", "cqd", "store_retrieve",
               "store_data", "store_raw", "readpaths"}
@@ -1280,6 +1476,7 @@ def monitor_call(w, call, where):
     res = None
     items = []
     ints = conts = None
+    pre = w.observe() if call.frozen else None
     try:
         res = call.invoke()
         if call.is_iter:
@@ -1304,13 +1501,21 @@ def monitor_call(w, call, where):
                 items.append(1)
     except Exception as e:  # pylint: disable=broad-except
         exc = type(e).__name__
+        if call.must_succeed:
+            return Failure("oracle", f"{where} {call.name}: raised {exc}: {str(e)[:160]}"), exc
+    if pre is not None:
+        post = w.observe()
+        for k in call.frozen:
+            if pre.get(k) != post.get(k):
+                return Failure("oracle", f"{where} {call.name}: changed `{k}`, which shares nothing with it: "
+                               f"{diff_keys(pre.get(k), post.get(k))[:4]}"), exc
     # (1) caller arrays bit-identical
     for a, b in zip(call.args, before):
         if snap_arg_after(a, b) != b:
             return Failure("oracle", f"{where} {call.name}: caller argument `{a.name}` (layout {a.layout}) was "
                            "mutated by the call"), exc
     # (2) nothing reachable from the callee overlaps a caller array
-    ints, conts = internal_arrays(w.roots())
+    ints, conts = internal_arrays(call.graph_roots() if call.graph_roots else w.roots())
     for a in call.args:
         for ca in a.arrays():
             for path, ia in ints:
@@ -1554,9 +1759,15 @@ def _run_case(case):
             if f is not None:
                 return f
             continue
+        if op["op"] == "d40":
+            f = check_d40()
+            if f is not None:
+                return f
+            continue
         try:
             ga = PREP[op["op"]](wa, op)
             gb = PREP[op["op"]](wb, op)
+            ncalls = 0
             while True:
                 ea = eb = None
                 ca = cb = None
@@ -1577,7 +1788,15 @@ def _run_case(case):
                                    f"arrays of earlier calls the callee behaves differently from the clean twin "
                                    f"(preparation raised {ea} vs {eb})")
                 if ca is None:
+                    if ncalls == 0:
+                        # an op without a monitored call (a probe): the twins must still agree
+                        oa, ob = wa.observe(), wb.observe()
+                        if oa != ob:
+                            return Failure("oracle", f"{where} {op['op']}: behaviour differs from the clean twin "
+                                           f"run (observables {diff_keys(oa, ob)[:4]}): garbage written into the "
+                                           "caller's arrays after an earlier call reached the callee")
                     break
+                ncalls += 1
                 f, xa = monitor_call(wa, ca, where)
                 if f is not None:
                     return f
@@ -1644,7 +1863,11 @@ def gen_archive_add(rng, c):
     ops.append(t)
     ops += prefix_adds(rng, rng.randint(1, 2))
     ops.append({"op": "sample", "n": 2})
-    return {"arch": k, "dtype": d, "ops": ops}
+    case = {"arch": k, "dtype": d, "ops": ops}
+    if rng.random() < 0.3:
+        ops.append({"op": "readpaths"})
+        with_obj(case, rng.choice(OBJ_VARIANTS[1:]))
+    return case
 
 
 def combos_sliding(quick):
@@ -1718,19 +1941,33 @@ def gen_archive_read(rng, c):
     return case
 
 
+OBJ_VARIANTS = [None, "fields", "objsol", "both"]
+# None: numeric fields only; "fields": extra object fields `tags` ((2,), object) -- NON-scalar entries -- and
+# `meta` ((), object) with payloads of several Python types; "objsol": object solutions through the dict form
+# of `dtype`; "both"
+
+
+def with_obj(case, obj):
+    if obj:
+        case["obj"] = obj
+    return case
+
+
 def combos_best():
-    return [(k, d) for k in ARCH_KINDS for d in DTYPES]
+    return [(k, d, o) for o in OBJ_VARIANTS[:3] for k in ARCH_KINDS for d in DTYPES]
 
 
 def gen_best(rng, c):
-    k, d = c
+    k, d, o = c
+    if o and rng.random() < 0.3:
+        o = "both"
     ops = (prefix_adds(rng, rng.randint(1, 3), k) + [{"op": "best"}] + prefix_adds(rng, rng.randint(0, 2), k) +
-           [{"op": "best"}])
-    return {"arch": k, "dtype": d, "ops": ops}
+           [{"op": "best"}, {"op": "readpaths"}])
+    return with_obj({"arch": k, "dtype": d, "ops": ops}, o)
 
 
 def combos_iter():
-    return [(k, d) for k in ARCH_KINDS + ["store"] for d in DTYPES]
+    return [(k, d, o) for o in OBJ_VARIANTS[:3] for k in ARCH_KINDS + ["store"] for d in DTYPES]
 
 
 def store_prefix(rng, k):
@@ -1740,13 +1977,15 @@ def store_prefix(rng, k):
 
 
 def gen_iter(rng, c):
-    k, d = c
+    k, d, o = c
+    if o and rng.random() < 0.3:
+        o = "both"
     dims = pick_dims(rng, rng.choice(DIM_PROFILES)) if rng.random() < 0.5 else list(DEFAULT_DIMS)
     if k == "store":
-        return {"store": True, "dtype": d, "dims": dims,
-                "ops": store_prefix(rng, rng.randint(1, 3)) + [{"op": "iter"}, {"op": "readpaths"}]}
-    return {"arch": k, "dtype": d, "dims": dims,
-            "ops": prefix_adds(rng, rng.randint(1, 3), k) + [{"op": "iter"}, {"op": "readpaths"}]}
+        return with_obj({"store": True, "dtype": d, "dims": dims,
+                         "ops": store_prefix(rng, rng.randint(1, 3)) + [{"op": "iter"}, {"op": "readpaths"}]}, o)
+    return with_obj({"arch": k, "dtype": d, "dims": dims,
+                     "ops": prefix_adds(rng, rng.randint(1, 3), k) + [{"op": "iter"}, {"op": "readpaths"}]}, o)
 
 
 def combos_store():
@@ -1944,22 +2183,31 @@ def pick_dims(rng, profile):
     return [rng.randint(1, MAX_DIM), rng.choice([1, 2, 3, 4, 5, rng.randint(6, MAX_DIM)]), rng.randint(1, MAX_DIM)]
 
 
-def combos_readpaths():
-    return [(k, d, p) for p in DIM_PROFILES for k in ARCH_KINDS + ["store"] for d in DTYPES]
+def combos_readpaths(quick):
+    """(class incl. store x dtype x dimension profile) in full; the object-field variant is crossed in the
+    thorough tier and rotated in the quick tier (every class and dtype meets three of the four variants)."""
+    kd = [(k, d) for k in ARCH_KINDS + ["store"] for d in DTYPES]
+    if quick:
+        return [(k, d, p, OBJ_VARIANTS[(pi + i) % 4]) for pi, p in enumerate(DIM_PROFILES)
+                for i, (k, d) in enumerate(kd)]
+    return [(k, d, p, o) for p in DIM_PROFILES for (k, d) in kd for o in OBJ_VARIANTS]
 
 
 def gen_readpaths(rng, c):
-    k, d, prof = c
+    k, d, prof, o = c
     dims = pick_dims(rng, prof)
     if k == "store":
         ops = []
         for _ in range(rng.randint(1, 3)):
             ops += store_prefix(rng, 1) + [{"op": "readpaths"}]
-        return {"store": True, "dtype": d, "dims": dims, "ops": ops}
+        return with_obj({"store": True, "dtype": d, "dims": dims, "ops": ops}, o)
     ops = []
     for _ in range(rng.randint(1, 3)):
         ops += prefix_adds(rng, rng.randint(1, 2), k) + [{"op": "readpaths"}]
-    return {"arch": k, "dtype": d, "dims": dims, "ops": ops}
+    if k == "sba":
+        # past the next remaps: what the buffer re-adds must still be what was submitted
+        ops += prefix_adds(rng, rng.randint(3, 6), k) + [{"op": "readpaths"}]
+    return with_obj({"arch": k, "dtype": d, "dims": dims, "ops": ops}, o)
 
 
 def nontrivial(case):
@@ -2016,7 +2264,7 @@ def strata(ctx):
         ("opt.step", combos_opt(), gen_opt, (2, 20), (1, 10)),
         ("visualize.df", combos_viz(ctx.quick), gen_viz, (1, 4), (6, 80)),
         ("helpers", combos_helpers(), gen_helpers, (1, 5), (3, 30)),
-        ("readpaths", combos_readpaths(), gen_readpaths, (1, 10), (4, 40)),
+        ("readpaths", combos_readpaths(ctx.quick), gen_readpaths, (1, 10), (4, 40)),
     ]
 
 
